@@ -15,7 +15,7 @@ RULE = ('fault injection: a valid generated deck (flat, universes, lattices) get
         'material card mixing signs, malformed --lattice strings — and must end with an exception of a diagnostic '
         'class (never a finished conversion, never a bare KeyError/TypeError/IndexError). The unfaulted deck is '
         'converted first and must succeed. Distinct = (fault class, card).')
-NOT_PROVED = []
+NOT_PROVED = ['that every rejection of the model corresponds to a diagnostic of the code naming the problem: decided per injected fault by the harness, no theorem about message texts']
 ASSUMPTIONS = []
 
 DIAGNOSTIC = {'TransformationError', 'LatticeError', 'MissingLatticeOptError', 'MacroBodyError', 'CellConversionError',
